@@ -146,8 +146,18 @@ def rule_hb(ctx):
     R = "C16.HB"
     cr = ctx.index.func("messages:Heartbeat.create_response")
     calls = [c for c in calls_in(cr.node) if call_name(c) == "create"]
-    ok = len(calls) == 1 and len(calls[0].args) >= 2 and \
-        norm(calls[0].args[0]) == "HeartbeatMessageType.heartbeat_response" and norm(calls[0].args[1]) == "self.payload"
+    # arguments by position or by keyword, matched against Heartbeat.create's own parameter names
+    hc = ctx.index.func("messages:Heartbeat.create")
+    pn = [a.arg for a in hc.node.args.args[1:]]
+    bound = {}
+    if len(calls) == 1:
+        for i, a in enumerate(calls[0].args):
+            if i < len(pn):
+                bound[pn[i]] = norm(a)
+        for k in calls[0].keywords:
+            bound[k.arg] = norm(k.value)
+    ok = len(calls) == 1 and len(pn) >= 2 and bound.get(pn[0]) == "HeartbeatMessageType.heartbeat_response" \
+        and bound.get(pn[1]) == "self.payload"
     ctx.check(R, ok, cr.qname, "response echoes exactly the request's payload",
               "a heartbeat response must carry type heartbeat_response and the request's payload (not its "
               "padding or anything else)", cr.loc())
